@@ -138,3 +138,37 @@ Theorem C08_workers_run_on_group_context :
   resolve_shared gen_shared "eg" = Some (WResult (WCall "errgroup.WithContext" [WVar "ctx"]) 0).
 Proof. exact workers_run_on_group_context. Qed.
 Print Assumptions C08_workers_run_on_group_context.
+
+(* ---------- the audit line parser stops at once when its context is done, even with lines waiting ----------
+   (the saturated-stream case of this property.)  Gen/AuditProg.v is regenerated on every run from
+   parseAuditLogs; interpreted by Model/AuditIR.v: when the context is done, the loop returns ctx.Err() — whether
+   the cancellation is seen by the select or a line is already waiting in the buffer (the check at the top of every
+   iteration comes first) — and consumes nothing.  So Read's deferred join (stop the parser, wait for it) cannot be
+   held up by a buffer the ingester keeps full. *)
+From AM Require Model.AuditProc Model.AuditIR Gen.AuditProg Proofs.AuditIRTie.
+Section ParserStops.
+  Import Model.AuditProc Model.AuditIR Gen.AuditProg Proofs.AuditIRTie.
+  Variables line msg event cerr login AS : Type.
+  Variable is_empty : line -> bool.
+  Variable parse : line -> option msg.
+  Variable mseq : msg -> BinNums.N.
+  Variable mtype : msg -> nat.
+  Variable coalesce : list msg -> option event.
+  Variable old : event -> bool.
+  Variable audit : AS -> event -> AS * option cerr.
+  Variable rlogin : AS -> login -> AS * option cerr.
+  Variables csess clogins : AS -> tmv -> AS.
+  Variable dur : BinNums.Z -> nat.
+
+  Theorem C08_parser_returns_on_cancel : forall lim b (p : pst line msg event cerr AS),
+    parse_iter_gen line msg event cerr login AS is_empty parse mseq mtype coalesce old audit rlogin csess clogins dur
+                   gen_audit lim (EvCancel line login b) p = Some (p, Some (Some (XCtx line msg cerr))).
+  Proof. exact (parse_cancel_from_source line msg event cerr login AS is_empty parse mseq mtype coalesce old audit rlogin csess clogins dur). Qed.
+
+  Theorem C08_parser_returns_on_cancel_with_lines_waiting : forall lim now l (p : pst line msg event cerr AS),
+    parse_iter_gen line msg event cerr login AS is_empty parse mseq mtype coalesce old audit rlogin csess clogins dur
+                   gen_audit lim (EvLineCancelled line login now l) p = Some (p, Some (Some (XCtx line msg cerr))).
+  Proof. exact (parse_line_after_cancel_from_source line msg event cerr login AS is_empty parse mseq mtype coalesce old audit rlogin csess clogins dur). Qed.
+End ParserStops.
+Print Assumptions C08_parser_returns_on_cancel.
+Print Assumptions C08_parser_returns_on_cancel_with_lines_waiting.
